@@ -71,6 +71,8 @@ type Snapshot struct {
 	Executed bool     // false when skipped inside a non-executing branch
 	Stack    [][]byte // bottom first
 	Alt      [][]byte
+	Cond     []bool // one entry per open conditional (the node's vfExec), outermost first
+	Else     []bool // whether that conditional has seen its OP_ELSE (vfElse)
 }
 
 // SigOp records the three-valued outcome of a signature opcode.
@@ -363,6 +365,8 @@ type machine struct {
 	sigops   []SigOp
 	doTrace  bool
 	scriptNo int
+	cond     []bool // mirrors of vfExec / vfElse for the trace
+	els      []bool
 }
 
 func cp(b []byte) []byte { return append([]byte{}, b...) }
@@ -482,6 +486,7 @@ func (m *machine) eval(script []byte) error {
 			}
 			if done {
 				// post-genesis top-level OP_RETURN: success, nothing after it matters
+				m.cond, m.els = nil, nil
 				m.snap(at, op, true)
 				m.alt = nil
 				m.fixLastAlt()
@@ -491,6 +496,7 @@ func (m *machine) eval(script []byte) error {
 		if !m.genesis && len(m.stack)+len(m.alt) > 1000 {
 			return serr("STACK_SIZE")
 		}
+		m.cond, m.els = vfExec, vfElse
 		m.snap(at, op, executed)
 	}
 	if len(vfExec) != 0 {
@@ -505,7 +511,8 @@ func (m *machine) snap(at int, op byte, executed bool) {
 	if !m.doTrace {
 		return
 	}
-	m.trace = append(m.trace, Snapshot{Script: m.scriptNo, Offset: at, Op: op, Executed: executed, Stack: cpStack(m.stack), Alt: cpStack(m.alt)})
+	m.trace = append(m.trace, Snapshot{Script: m.scriptNo, Offset: at, Op: op, Executed: executed, Stack: cpStack(m.stack), Alt: cpStack(m.alt),
+		Cond: append([]bool{}, m.cond...), Else: append([]bool{}, m.els...)})
 }
 
 // fixLastAlt: the state recorded after the last instruction of a script is the
